@@ -185,7 +185,7 @@ def utilities(case, inv):
             res.append(tuple(sorted((inv[c], v) for c, v in d.items())))
         except Exception as e:
             res.append(("EXC", type(e).__name__))
-    if all(len(pos) == 1 for r, _ in case[1] for pos in r):
+    if True:
         try:
             g = PCG(prof)
             res.append(tuple(sorted(((inv[a], inv[b]), v) for (a, b), v in g.pairwise_dict.items())))
